@@ -3,6 +3,8 @@ package main
 
 import (
 	"fmt"
+	"net"
+	"regexp"
 	"sort"
 	"strconv"
 	"strings"
@@ -230,6 +232,148 @@ func chainLines(out string) []string {
 	return strings.Split(out, " ;; ")
 }
 
+// ---- a small evaluator of rendered iptables rules, for verdict-based oracle clauses ----------------
+
+type probe struct {
+	proto    string
+	dport    int
+	sport    int
+	src, dst string
+	ct       string // NEW | ESTABLISHED | INVALID
+	in, out  string
+	mark     uint32
+}
+
+var commentRe = regexp.MustCompile(`-m comment --comment "[^"]*" ?`)
+
+func ifMatch(pat, name string) bool {
+	if strings.HasSuffix(pat, "+") {
+		return strings.HasPrefix(name, strings.TrimSuffix(pat, "+"))
+	}
+	return pat == name
+}
+
+func inCIDR(addr, cidr string) bool {
+	if addr == "" {
+		addr = "198.51.100.7" // a probe without a pinned address is "some other host"
+	}
+	_, n, err := net.ParseCIDR(cidr)
+	if err != nil {
+		if !strings.Contains(cidr, "/") {
+			return addr == cidr
+		}
+		return false
+	}
+	return n.Contains(net.ParseIP(addr))
+}
+
+var protoNum = map[string]string{"tcp": "6", "udp": "17", "sctp": "132"}
+
+// evalIpt runs the probe through the rendered rules of one chain.  Chains in `known` are followed on
+// a jump; a jump to any other chain ends the evaluation with "JUMP:<chain>".  Returns ACCEPT, DROP,
+// RETURN (fell off / returned), JUMP:<chain> or "unknown" (a match it cannot interpret: the caller
+// must then abstain).
+func evalIpt(lines []string, p probe, known map[string][]string) string {
+	for _, l := range lines {
+		l = commentRe.ReplaceAllString(l, "")
+		tok := strings.Fields(l)
+		if len(tok) < 2 || tok[0] != "-A" {
+			return "unknown"
+		}
+		tok = tok[2:]
+		match := true
+		action := ""
+		var setMark string
+		for i := 0; i < len(tok); i++ {
+			arg := func() string {
+				i++
+				if i < len(tok) {
+					return tok[i]
+				}
+				return ""
+			}
+			switch tok[i] {
+			case "-p":
+				v := arg()
+				if v != p.proto && v != protoNum[p.proto] {
+					match = false
+				}
+			case "-m":
+				arg() // module name; its options follow as separate tokens
+			case "--destination-ports", "--dport":
+				if v := arg(); v != strconv.Itoa(p.dport) {
+					match = false
+				}
+			case "--source-ports":
+				if v := arg(); v != strconv.Itoa(p.sport) {
+					match = false
+				}
+			case "--source":
+				if !inCIDR(p.src, arg()) {
+					match = false
+				}
+			case "--destination":
+				if !inCIDR(p.dst, arg()) {
+					match = false
+				}
+			case "--ctstate":
+				if !strings.Contains(","+arg()+",", ","+p.ct+",") && !(p.ct == "ESTABLISHED" && false) {
+					match = false
+				}
+			case "--in-interface":
+				if !ifMatch(arg(), p.in) {
+					match = false
+				}
+			case "--out-interface":
+				if !ifMatch(arg(), p.out) {
+					match = false
+				}
+			case "--mark":
+				vm := strings.Split(arg(), "/")
+				v, e1 := strconv.ParseUint(strings.TrimPrefix(vm[0], "0x"), 16, 32)
+				m, e2 := strconv.ParseUint(strings.TrimPrefix(vm[len(vm)-1], "0x"), 16, 32)
+				if e1 != nil || e2 != nil {
+					return "unknown"
+				}
+				if p.mark&uint32(m) != uint32(v) {
+					match = false
+				}
+			case "--jump", "--goto":
+				action = arg()
+			case "--set-mark":
+				setMark = arg()
+			default:
+				return "unknown"
+			}
+		}
+		if !match {
+			continue
+		}
+		switch action {
+		case "ACCEPT", "DROP", "RETURN":
+			return action
+		case "MARK":
+			vm := strings.Split(setMark, "/")
+			v, e1 := strconv.ParseUint(strings.TrimPrefix(vm[0], "0x"), 16, 32)
+			m, e2 := strconv.ParseUint(strings.TrimPrefix(vm[len(vm)-1], "0x"), 16, 32)
+			if e1 != nil || e2 != nil {
+				return "unknown"
+			}
+			p.mark = p.mark&^uint32(m) | uint32(v)
+		case "NOTRACK", "":
+		default:
+			sub, ok := known[action]
+			if !ok {
+				return "JUMP:" + action
+			}
+			if v := evalIpt(sub, p, known); v != "RETURN" {
+				return v
+			}
+		}
+	}
+	return "RETURN"
+}
+
 // text helpers: the same structural facts in iptables and nftables syntax.
 func (s *state) isJump(l, chain string) bool {
 	if s.nft {
@@ -310,23 +454,62 @@ func oracle(h *rt.H, s *state, op string, out string) {
 			}
 		}
 	case w[0] == "hep":
-		// the failsafe jump precedes every policy jump and every drop other than the conntrack-INVALID one
-		fs := -1
-		for i, l := range lines {
+		// a host endpoint chain must send failsafe traffic to the failsafe chain (structural, order-free)
+		fs := false
+		for _, l := range lines {
 			if s.isJump(l, "cali-failsafe-in") || s.isJump(l, "cali-failsafe-out") {
-				fs = i
-				break
+				fs = true
 			}
 		}
-		if fs < 0 {
+		if !fs {
 			fail("hep-no-failsafe", "host endpoint chain without failsafe jump")
 			return
 		}
-		for i := 0; i < fs; i++ {
-			l := lines[i]
-			invalid := strings.Contains(l, "--ctstate INVALID") || strings.Contains(l, "ct state invalid")
-			if strings.Contains(l, "jump cali-p") || (s.isDrop(l) && !invalid) {
-				fail("hep-policy-before-failsafe", "policy or drop rule ahead of the failsafe jump: "+l)
+		// verdict-based: a NEW-connection probe packet on every IPv4 failsafe port must reach the failsafe
+		// chain and be ACCEPTed there before any policy chain or drop gets it (rule ORDER is not demanded:
+		// rules that do not match the probe, and non-terminal rules, may sit anywhere)
+		if s.nft {
+			h.Count("obs:hep-failsafe-probe-skipped-nft")
+			return
+		}
+		ingress := strings.HasSuffix(w[1], "-in")
+		table := strings.Split(w[1], "-")[0]
+		ports := s.cfg.FailsafeOutboundHostPorts
+		fsName := "cali-failsafe-out"
+		if ingress {
+			ports = s.cfg.FailsafeInboundHostPorts
+			fsName = "cali-failsafe-in"
+		}
+		var fsLines []string
+		switch table {
+		case "filter":
+			fsLines = chainLines(findChain(s.r.StaticFilterTableChains(4), fsName))
+		case "raw":
+			fsLines = chainLines(findChain(s.r.StaticRawTableChains(4), fsName))
+		case "mangle":
+			fsLines = chainLines(findChain(s.r.StaticMangleTableChains(4), fsName))
+		}
+		for _, pp := range ports {
+			if strings.Contains(pp.Net, ":") {
+				continue
+			}
+			pk := probe{proto: pp.Protocol, dport: int(pp.Port), ct: "NEW", in: w[2], out: w[2]}
+			if pp.Net != "" {
+				a := strings.Split(pp.Net, "/")[0]
+				if ingress {
+					pk.src = a
+				} else {
+					pk.dst = a
+				}
+			}
+			v := evalIpt(lines, pk, map[string][]string{fsName: fsLines})
+			switch v {
+			case "ACCEPT":
+				h.Count("obs:hep-failsafe-probe-accepted")
+			case "unknown":
+				h.Count("obs:hep-failsafe-probe-unknown-syntax")
+			default:
+				fail("hep-failsafe-probe-not-accepted", fmt.Sprintf("NEW %s/%d probe on a failsafe port gets %q instead of ACCEPT", pp.Protocol, pp.Port, v))
 			}
 		}
 	case w[0] == "wldispatch":
@@ -334,17 +517,20 @@ func oracle(h *rt.H, s *state, op string, out string) {
 			fail("dispatch-not-fail-closed", "workload dispatch chain does not end with an unconditional drop")
 		}
 	case w[0] == "static" && w[2] == "cali-wl-to-host":
-		d, a := -1, -1
-		for i, l := range lines {
-			if s.isJump(l, "cali-from-wl-dispatch") {
-				d = i
-			}
-			if strings.Contains(l, "Configured DefaultEndpointToHostAction") && a < 0 {
-				a = i
-			}
+		// verdict-based: whatever the packet, the first rule that can decide its fate must be the jump to
+		// the workload egress dispatch; the configured endpoint-to-host action comes only after it returned
+		if s.nft {
+			h.Count("obs:to-host-probe-skipped-nft")
+			return
 		}
-		if d < 0 || a < 0 || a < d {
-			fail("to-host-order", "endpoint-to-host action is not after the workload egress dispatch")
+		v := evalIpt(lines, probe{proto: "tcp", dport: 80, ct: "NEW", in: "cali1234"}, map[string][]string{})
+		switch {
+		case v == "JUMP:cali-from-wl-dispatch":
+			h.Count("obs:to-host-probe-ok")
+		case v == "unknown":
+			h.Count("obs:to-host-probe-unknown-syntax")
+		default:
+			fail("to-host-order", "a workload-to-host packet meets "+v+" before the workload egress dispatch")
 		}
 	case w[0] == "static" && w[1] == "filter" && w[2] == "cali-INPUT":
 		hepIdx := -1
